@@ -44,6 +44,7 @@ func ExecPlan(p *Plan) (*RunResult, *Engine) {
 	simrt.BeginRun(p.MapSeed, p.MapOrder)
 	defer simrt.EndRun()
 	e := NewEngine(p.Property, p.World, p.Twin, p.Retain)
+	e.Obs.R = NewRng(Mix(p.Seed, 0x0b5))
 	maxID := 0
 	for _, c := range p.Cmds {
 		if c.ID > maxID {
@@ -86,6 +87,7 @@ func Generate(prof *Profile, seed uint64) (*Plan, *RunResult, *Gen) {
 	simrt.BeginRun(p.MapSeed, p.MapOrder)
 	defer simrt.EndRun()
 	e := NewEngine(prof.Prop, g.W, twin, prof.Retain)
+	e.Obs.R = NewRng(Mix(seed, 0x0b5))
 	step := 0
 	for _, c := range g.Setup() {
 		if twin != "" && c.C%2 != 0 {
